@@ -23,6 +23,7 @@ from flowmark.linewrapping.line_wrappers import (
 )
 from flowmark.linewrapping.protocols import LineWrapper
 from flowmark.linewrapping.text_filling import DEFAULT_WRAP_WIDTH
+from flowmark.linewrapping.text_wrapping import markdown_escape_first_word
 
 
 class ListSpacing(str, Enum):
@@ -640,6 +641,9 @@ class MarkdownNormalizer(Renderer):
             # A hard line break inside a (setext) heading: an ATX heading is a single line and
             # cannot hold it, so the setext form is kept.
             lines = children_content.split("\n")
+            # What follows a hard break starts a line: a marker-like first word is escaped there
+            # as at any wrapped line start.
+            lines[1:] = [markdown_escape_first_word(line, paragraph_start=False) for line in lines[1:]]
             lines.append(("=" if element.level == 1 else "-") * 3)
             heading_text = "\n".join(
                 [self._prefix + lines[0]] + [self._second_prefix + line for line in lines[1:]]
